@@ -525,6 +525,7 @@ def _run(ctx, st):
             r['verdict'] = 'skip'
             continue
         v = r.pop('py')
+        r['pyv'] = v
         r['nan'] = has_nan_in_sortable_list(v)
         if 'verdict' not in r:
             # not validated by a real run: the base validate_schema on a bare spec object
@@ -582,7 +583,8 @@ def _run(ctx, st):
         if impl != model:
             ctx.disagree('schema', {'cls': cname, 'doc': r['doc'], 'src': r['src']}, model, impl)
     ctx.cov['schema_stream_s'] = round(time.time() - t0, 1)
-    run_ctor(ctx, st, recs, pyvals, ctx.n(5.0, 60.0))
+    from harness import ctor_stream
+    ctor_stream.run(ctx, st, recs, ctx.n(9.0, 120.0))
     run_re(ctx, st, tables, allnodes)
     run_eq(ctx, st, allnodes)
     ctx.cov['schema_streams_s'] = round(time.time() - t0, 1)
